@@ -1,35 +1,50 @@
 /-
   bufrdrv — JSON-lines driver over the executable model.  One request per input line, one
   response per output line.  Imports no Lemmas/Props (and therefore no Mathlib).
+  State: the table group loaded by the last `tables` request (Drv/State.lean).
 -/
 import BufrModel.Drv.JsonUtil
+import BufrModel.Drv.State
 import BufrModel.Drv.BitsOp
 import BufrModel.Drv.PathOp
 open Lean Bufr.Drv
 
-def dispatch (j : Json) : J Json := do
-  let op ← asStr (← fld j "op")
-  match op with
-  | "ping" => pure (jobj [("pong", Json.bool true)])
-  | "bits" => opBits j
-  | "path" => opPath j
-  | "path-enum" => opPathEnum j
-  | _ => throw s!"unknown op {op}"
+/-- stateless operations: one line per op (keep sorted by property to ease merging) -/
+def statelessOps : List (String × (Json → J Json)) := [
+  ("bits", opBits),
+  ("path", opPath),
+  ("path-enum", opPathEnum)
+]
 
-partial def loop (hin hout : IO.FS.Stream) : IO Unit := do
+/-- operations that read or change the driver state -/
+def statefulOps : List (String × (DrvState → Json → J (DrvState × Json))) := [
+  ("tables", opTables)
+]
+
+def dispatch (st : DrvState) (j : Json) : J (DrvState × Json) := do
+  let op ← asStr (← fld j "op")
+  if op == "ping" then return (st, jobj [("pong", Json.bool true)])
+  match statelessOps.lookup op with
+  | some f => return (st, ← f j)
+  | none =>
+    match statefulOps.lookup op with
+    | some f => f st j
+    | none => throw s!"unknown op {op}"
+
+partial def loop (hin hout : IO.FS.Stream) (st : DrvState) : IO Unit := do
   let line ← hin.getLine
   if line.isEmpty then return ()
-  let out : Json :=
+  let (st', out) : DrvState × Json :=
     match Json.parse line with
-    | .error e => jobj [("driver_error", jstr ("parse: " ++ e))]
-    | .ok j => match dispatch j with
+    | .error e => (st, jobj [("driver_error", jstr ("parse: " ++ e))])
+    | .ok j => match dispatch st j with
       | .ok r => r
-      | .error e => jobj [("driver_error", jstr e)]
+      | .error e => (st, jobj [("driver_error", jstr e)])
   hout.putStrLn out.compress
-  loop hin hout
+  loop hin hout st'
 
 def main : IO Unit := do
   let hin ← IO.getStdin
   let hout ← IO.getStdout
-  loop hin hout
+  loop hin hout {}
   hout.flush
